@@ -72,6 +72,60 @@ def h_cu_cache_step(ctx):
     ctx.check('L1/cu/repeat-is-identical', again is got and len(made) == n)
 
 
+class _S4:
+    def initial_length_field_size(self):
+        return 4
+
+
+class _Unit(_Obj):
+    """unit double: offset, size, header access and structs as DWARFInfo's unit search uses them"""
+    structs = _S4()
+
+    def __init__(self, offset, size):
+        _Obj.__init__(self, offset)
+        self.size = size
+
+    def __getitem__(self, k):
+        assert k == 'unit_length'
+        return self.size - 4
+
+
+def h_cu_containing_step(ctx):
+    """get_CU_containing from an ARBITRARY valid cache state (any subset of the units already cached, in particular sparse ones)"""
+    cfg = ctx.cfg
+    k, mask = cfg['k'], cfg['mask']
+    sizes = [ctx.int_range('size%d' % i, 11, 4000) for i in range(k)]
+    starts = [0]
+    for z in sizes[:-1]:
+        starts.append(starts[-1] + z)
+    total = starts[-1] + sizes[-1]
+    di, _ = mk_dwarfinfo(ctx, True, 8, debug_info=[0] * 4, debug_abbrev=[0])
+    di.debug_info_sec = di.debug_info_sec._replace(size=total)
+    units = [_Unit(starts[i], sizes[i]) for i in range(k)]
+    cached = [i for i in range(k) if mask >> i & 1]
+    di._cu_offsets_map = [starts[i] for i in cached]
+    di._cu_cache = [units[i] for i in cached]
+    made = []
+
+    def parser(offset):
+        for i in range(k):
+            if ctx.fork(offset == starts[i]):
+                made.append(i)
+                return units[i]
+        raise AssertionError('a unit is parsed at an offset where none starts')
+    di._parse_CU_at_offset = parser
+    ref = ctx.uint('refaddr', 16)
+    ctx.assume(ref < total)
+    got = di.get_CU_containing(ref)
+    ctx.outcome('found')
+    ctx.check('L1/containing/unit-contains-the-offset', ctx.land(got.cu_offset <= ref, ref < got.cu_offset + got.size))
+    ctx.check('L1/containing/is-one-of-the-units', any(got is u for u in units))
+    m, c = di._cu_offsets_map, di._cu_cache
+    ctx.check('L1/containing/cache-sorted-and-duplicate-free', ctx.land(*[a < b for a, b in zip(m, m[1:])]))
+    ctx.check('L1/containing/objects-match-offsets', ctx.land(*[x.offset == y for x, y in zip(c, m)]))
+    ctx.check('L1/containing/cached-units-not-parsed-again', not any(i in cached for i in made))
+
+
 def h_die_cache_step(ctx):
     cfg = ctx.cfg
     k, which = cfg['k'], cfg['unit']
@@ -167,6 +221,13 @@ def _dwarf_fixture(ctx, little=True):
     cie = enc.enc_int(len(cie_body), 4, little) + cie_body
     fde_body = enc.enc_int(0, 4, little) + enc.enc_int(0x1000, 8, little) + enc.enc_int(0x20, 8, little) + [0x41, 0x0e, 16, 0]
     frame = cie + enc.enc_int(len(fde_body), 4, little) + fde_body
+    # a second CIE that establishes no initial rules (only padding) with two FDEs saving different registers
+    cie2_off = len(frame)
+    cie2_body = [0xff] * 4 + [1, 0] + [1, 0x78, 16] + [0, 0, 0, 0, 0, 0]
+    frame += enc.enc_int(len(cie2_body), 4, little) + cie2_body
+    for k, reg in enumerate((6, 3)):
+        fb = enc.enc_int(cie2_off, 4, little) + enc.enc_int(0x2000 + 0x100 * k, 8, little) + enc.enc_int(0x20, 8, little) + [0x41, 0x80 | reg, 2 + k, 0]
+        frame += enc.enc_int(len(fb), 4, little) + fb
     # aranges: one set, one tuple
     ar_rest = enc.enc_int(2, 2, little) + enc.enc_int(0, 4, little) + [8, 0] + [0] * 4
     ar_body = ar_rest + enc.enc_int(0x1000, 8, little) + enc.enc_int(0x20, 8, little) + [0] * 16
@@ -266,8 +327,28 @@ def _o11(di, o):
     for e in di.CFI_entries():
         out.append((type(e).__name__, e.offset, _norm(dict(e.header)), [(i.opcode, _norm(i.args)) for i in e.instructions],
                     [(_norm({k: (getattr(v, 'type', None), getattr(v, 'arg', None), getattr(v, 'reg', None), getattr(v, 'offset', None)) if not isinstance(v, int) else v
-                              for k, v in line.items()})) for line in e.get_decoded().table]))
+                              for k, v in line.items()})) for line in e.get_decoded().table], list(e.get_decoded().reg_order)))
     return out
+
+
+def _cfi_entries(di):
+    # one entry list per DWARFInfo, as a caller that keeps the result of CFI_entries() has it: the entries (and the CIE objects the
+    # FDEs point to) are shared between the queries of a history
+    if not hasattr(di, '_verif_cfi'):
+        di._verif_cfi = di.CFI_entries()
+    return di._verif_cfi
+
+
+def _cfi_decoded(k):
+    def f(di, o):
+        e = _cfi_entries(di)[k]
+        d = e.get_decoded()
+        return (type(e).__name__, len(d.table), list(d.reg_order))
+    return f
+
+
+for _k in range(5):
+    OPS['CFI_decoded(%d)' % _k] = _cfi_decoded(_k)
 
 
 @_op('aranges(0x1010)')
@@ -480,7 +561,7 @@ def _links_instances(tier):
 
 def _memo_instances(tier):
     names = ['iter_CUs', 'get_CU_at(B)', 'get_CU_containing(var)', 'top_DIE(A)', 'iter_DIEs(A)', 'DIE_by_offset(base)', 'children(ns)', 'parent(base)', 'follow_ref(var.type)',
-             'line_program(A)', 'CFI_entries', 'aranges(0x1010)', 'pubnames', 'location_list(var)', 'range_list(sub)']
+             'line_program(A)', 'CFI_entries', 'aranges(0x1010)', 'pubnames', 'location_list(var)', 'range_list(sub)'] + ['CFI_decoded(%d)' % k for k in (4, 2, 3, 0, 1)]
     out = []
     # every single prior query and a set of pairs / longer histories before asking everything
     for hname in names:
@@ -498,6 +579,8 @@ HARNESSES = [
     H('h10_L1_cu_cache', h_cu_cache_step, lambda tier: [dict(k=k) for k in ((0, 1, 2, 3, 4) if tier == 'quick' else (0, 1, 2, 3, 4, 5))], expect=('hit', 'miss'),
       desc='L1: DWARFInfo._cached_CU_at_offset from an ARBITRARY valid cache (k symbolic strictly increasing offsets, doubles carrying their offset) and a symbolic request: returned offset, '
            'hit returns the identical object, parse iff absent, post-state sorted / duplicate free / parallel / = pre + request, repeat is identical'),
+    H('h10_L1_cu_containing', h_cu_containing_step, lambda tier: [dict(k=k, mask=m) for k in ((1, 2, 3, 4) if tier == 'quick' else (1, 2, 3, 4, 5)) for m in range(1 << k)], expect=('found',),
+      desc='L1: DWARFInfo.get_CU_containing(offset) from every cache state (any subset of 1-4 units with symbolic sizes already cached): returns the unit whose extent contains the symbolic offset'),
     H('h10_L1_die_cache', h_die_cache_step, lambda tier: [dict(k=k, unit=u) for u in ('cu', 'tu') for k in ((1, 2, 3, 4) if tier == 'quick' else (1, 2, 3, 4, 5))], expect=('hit', 'miss'),
       desc='L1: CompileUnit._get_cached_DIE and TypeUnit._get_cached_DIE, same lemma with the top entry first'),
     H('h10_L2_dwarf_stream_pos', h_stream_pos,
